@@ -36,4 +36,13 @@ def opCondMatch (args : List SExp) : Option OpResult := do
     pure ⟨impl, mustEqual "C04" "match-etag" want⟩
   | _ => none
 
+/-- `cond.pass <cal|card> <ifmatch hex> <ifnonematch hex> => got <hex> <hex> | not-called <status>`: the CalDAV and
+CardDAV servers hand both header values to the backend unaltered (a valid object PUT always reaches the backend) -/
+def opCondPass (args : List SExp) : Option OpResult := do
+  match args with
+  | [.atom _srv, .atom im, .atom inm] =>
+    let want := s!"got {im} {inm}"
+    pure ⟨want, mustEqual "C04" "conditional-header-altered-before-backend" want⟩
+  | _ => none
+
 end Driver
